@@ -216,8 +216,10 @@ var emailPool = []string{"user@a.b.c.d.example.com", "user@mail.eu.example.co.uk
 var urlPool = []string{"http://example.com", "mailto:a@b.c", "mailto:", "http://{host}", "https://[::1]/", "ftp://", "HTTP://x.y", "http://ex ample.com", "file:/etc", "xmpp://a", "gopher://a", "http:/x",
 	"https://example.com/" + strings.Repeat("path/", 12) + "index.html?q=" + strings.Repeat("v", 40), "mailto:" + strings.Repeat("x", 70) + "@example.com"}
 var uuidPool = []string{"550e8400-e29b-41d4-a716-446655440000", "FFFFFFFF-FFFF-FFFF-FFFF-FFFFFFFFFFFF", "F47AC10B-58CC-4372-A567-0E02B2C3D479", "f47ac10b-58cc-4372-A567-0e02b2c3d479", "00000000-0000-0000-0000-000000000000", "550e8400-e29b-61d4-a716-446655440000", "550e8400-e29b-41d4-c716-446655440000", "550e8400-e29b-41d4-a716-44665544000\x15", "550e8400e29b41d4a716446655440000"}
-var alphaPool = []string{"", "abc", "ABCxyz", "abc1", "ab c", "é", "Ren\xe9", "\xc3", "z{", strings.Repeat("abcXYZ", 12), strings.Repeat("q", 33)}
-var numericPool = []string{"", "0", "0123456789", "12a", "-1", "1.0", "١٢", "１", "12\xff", strings.Repeat("0123456789", 7)}
+var alphaPool = []string{"", "abc", "ABCxyz", "abc1", "ab c", "é", "Ren\xe9", "\xc3", "z{", strings.Repeat("abcXYZ", 12), strings.Repeat("q", 33),
+	// letters only after Unicode case FOLDING (U+212A KELVIN SIGN folds to k, U+0130 to i, U+017F LONG S to s): not ASCII letters
+	"\u212aelvin", "\u0130stanbul", "\u0130", "K\u212a", "\u017fee"}
+var numericPool = []string{"", "0", "0123456789", "12a", "-1", "1.0", "١٢", "１", "12\xff", strings.Repeat("0123456789", 7), "18446744073709551615", "18446744073709551616", strings.Repeat("9", 20), strings.Repeat("9", 40)}
 var ipPool = []string{"192.168.0.1", "::1", "::ffff:1.2.3.4", "1.2.3", "abc", "1.2.3.4 ", "2001:db8::1", "0.0.0.0", "256.1.1.1", "fe80::1%eth0", "", "01.2.3.4"}
 
 func runeString(n int, unit string) string { return strings.Repeat(unit, n) }
@@ -1692,7 +1694,29 @@ func (g *gen) corpusDoc(id string) []*Scenario {
 	sc.Decls = []*Decl{d, d2}
 	sc.Values["Prose"] = g.structValues(d, 8)
 	sc.Values["ProseFlat"] = g.structValues(d2, 6)
-	return []*Scenario{sc}
+	// struct types with UNEXPORTED names (methods and package-level functions are generated for them too), and lists of more
+	// than 16 / 32 items that fail their rule (what a renderer of the report may want to abbreviate)
+	sc2 := newScenario(id + "low")
+	g.sc = sc2
+	d3 := &Decl{Name: "account", Fields: []*Field{
+		{Names: []string{"Owner"}, Type: stringT, Markers: []Marker{{ID: "required"}}},
+		{Names: []string{"Balance"}, Type: intT, Markers: []Marker{{ID: "gte", Expr: "0", HasExpr: true}}},
+		{Names: []string{"In"}, Nested: []*Field{{Names: []string{"Code"}, Type: stringT, Markers: []Marker{{ID: "numeric"}}}}},
+	}}
+	d4 := &Decl{Name: "settings", Markers: []Marker{{ID: "required"}}, Fields: []*Field{
+		{Names: []string{"Theme"}, Type: stringT},
+		{Names: []string{"Size"}, Type: intT, Markers: []Marker{{ID: "lte", Expr: "40", HasExpr: true}}},
+	}}
+	d5 := &Decl{Name: "Lists", Fields: []*Field{
+		{Names: []string{"Tags"}, Type: collTypes[0], Markers: []Marker{{ID: "maxitems", Expr: "20", HasExpr: true}}},
+		{Names: []string{"Nums"}, Type: collTypes[1], Markers: []Marker{{ID: "maxitems", Expr: "33", HasExpr: true}, {ID: "minitems", Expr: "18", HasExpr: true}}},
+		{Names: []string{"Raw"}, Type: collTypes[2], Markers: []Marker{{ID: "maxitems", Expr: "17", HasExpr: true}}},
+	}}
+	sc2.Decls = []*Decl{d3, d4, d5}
+	for _, dd := range sc2.Decls {
+		sc2.Values[dd.Name] = g.structValues(dd, 6)
+	}
+	return []*Scenario{sc, sc2}
 }
 
 // famBig (C17): length rules with limits of 1024 and more on values of 16 KiB and 1 MiB — all ASCII, multi-byte, and long runs
@@ -1779,7 +1803,18 @@ func (g *gen) famImported(id string) []*Scenario {
 	d1 := &Decl{Name: "Imp", Fields: fieldsOf(false)}
 	d2 := &Decl{Name: "Rev", Fields: fieldsOf(true)}
 	d3 := &Decl{Name: "InNest", Fields: []*Field{{Names: []string{"In"}, Nested: fieldsOf(false)[:4]}}}
-	sc.Decls = []*Decl{d1, d2, d3}
+	// EMBEDDED fields of imported named types (selected by the type's name)
+	d4 := &Decl{Name: "EmbImp", Fields: []*Field{
+		{Names: []string{"Tags"}, Type: nt("t1.Tags", collTypes[0]), Embed: true, Markers: []Marker{req, mk("minitems", "2")}},
+		{Names: []string{"Code"}, Type: nt("units.Code", basicT("uint8", "Uint8")), Embed: true, Markers: []Marker{mk("gt", "0")}},
+		{Names: []string{"Plain"}, Type: stringT, Markers: []Marker{req}},
+	}}
+	d5 := &Decl{Name: "EmbImp2", Fields: []*Field{
+		{Names: []string{"Tags"}, Type: nt("t2.Tags", collTypes[5]), Embed: true, Markers: []Marker{mk("maxitems", "2"), mk("minitems", "1")}},
+		{Names: []string{"Name"}, Type: nt("t2.Name", collTypes[2]), Embed: true, Markers: []Marker{mk("minitems", "2")}},
+		{Names: []string{"Plain"}, Type: stringT, Markers: []Marker{req}},
+	}}
+	sc.Decls = []*Decl{d1, d2, d3, d4, d5}
 	for _, d := range sc.Decls {
 		sc.Values[d.Name] = g.structValues(d, 6)
 	}
@@ -1805,6 +1840,15 @@ func (g *gen) famGrouped(id string) []*Scenario {
 		}
 		for di := range own {
 			d := &Decl{Name: fmt.Sprintf("G%d", di), Group: "g", GroupDoc: gdoc, Markers: own[(di+v)%len(own)]}
+			// specs that are NOT plain structs standing before later structs of the group: an alias, a generic struct, a plain type
+			switch di {
+			case 1:
+				d.PreSpec = fmt.Sprintf("Ident%d = string", v)
+			case 2:
+				d.PreSpec = fmt.Sprintf("Page%d[T any] struct {\n\t\tItem T\n\t}", v)
+			case 3:
+				d.PreSpec = fmt.Sprintf("Kind%d int", v)
+			}
 			for fi, t := range fieldSets[di] {
 				d.Fields = append(d.Fields, &Field{Names: []string{fmt.Sprintf("F%d", fi)}, Type: t})
 			}
